@@ -130,6 +130,12 @@ def text_document(t, ctx, label):
     features = set()
     direct_fonts = t.coin(25, 100, "doc.directfonts")
     cur = {b"F1": t.pick(names, "doc.f1"), b"F2": t.pick(names, "doc.f2")}
+    shared_form = None
+    if t.coin(25, 100, "doc.sharedform"):
+        # one form XObject without /Resources of its own, invoked by every page: it shows its text in whatever the
+        # invoking page binds /F1 to (one cached object, several callers, several sets of resources)
+        shared_form = alloc(docs.content_stream(b"BT /F1 10 Tf 20 20 Td (ABAB) Tj ET", extra={b"Type": Name(b"XObject"), b"Subtype": Name(b"Form"), b"BBox": [0, 0, 200, 100], b"Matrix": [1, 0, 0, 1, 100, 100]}))
+        features.add("resource-less form shared by pages")
     for p in range(npages):
         if p and t.coin(45, 100, "doc.replace"):
             cur[t.pick([b"F1", b"F2"], "doc.which")] = t.pick(names, "doc.fnew")
@@ -150,9 +156,13 @@ def text_document(t, ctx, label):
             # a path that is built but never painted when the page ends (e.g. a clip without n)
             prog += [Op("re", [F(20), F(20), F(30), F(30)]), Op("W")]
             features.add("unpainted path at page end")
+        if shared_form is not None:
+            prog.insert(t.draw(len(prog) // 5 + 1, "page.formpos") * 5, Op("Do", [Name(b"FmR")]))
         data, _ = gfx.serialise(prog, None)
         c = alloc(docs.content_stream(data, flate=t.coin(50, 100, "page.flate")))
         res = {b"Font": {k: font_ref(v) for k, v in cur.items()}}
+        if shared_form is not None:
+            res[b"XObject"] = {b"FmR": shared_form}
         if direct_fonts:
             # font dictionaries written directly in the resources (no object number of their own)
             for k in cur:
@@ -165,6 +175,12 @@ def text_document(t, ctx, label):
         page = alloc({b"Type": Name(b"Page"), b"Parent": Ref(2, 0), b"MediaBox": [0, 0, 612, 792], b"Contents": c, b"Resources": res})
         kids.append(page)
     objects[1] = {b"Type": Name(b"Catalog"), b"Pages": Ref(2, 0)}
+    if t.coin(3, 100, "doc.manynames"):
+        # tens of thousands of distinct names: process-wide tables that grow with what was read (the name intern
+        # table) must keep serving the documents read afterwards
+        base = t.draw(1000, "doc.manynames.base")
+        objects[1][b"PieceInfo"] = {b"k%dx%d" % (base, i): 0 for i in range(40000)}
+        features.add("40000 distinct names")
     objects[2] = {b"Type": Name(b"Pages"), b"Kids": kids, b"Count": len(kids)}
     form = t.pick(["table", "stream"], "doc.form")
     pack = [i for i in objects if t.coin(60, 100, "doc.pack")] if form == "stream" else None
